@@ -55,11 +55,9 @@ Init ==
     /\ act = A("Init", 0, 0, FALSE)
 
 -----------------------------------------------------------------------------
-(* min(conns, key=in_flight): the first of the least busy *)
-LeastBusy(s, infl) ==
-    LET m == CHOOSE i \in 1..Len(s) : /\ \A j \in 1..Len(s) : infl[s[i]] <= infl[s[j]]
-                                      /\ \A j \in 1..(i - 1) : infl[s[j]] > infl[s[i]]
-    IN s[m]
+(* min(conns, key=in_flight): one of the least busy connections of the list.  Which one wins a tie is the    *)
+(* implementation's business (C12 only says that it has free capacity), so the choice is left open.          *)
+LeastBusySet(s, infl) == {s[i] : i \in {k \in 1..Len(s) : \A j \in 1..Len(s) : infl[s[k]] <= infl[s[j]]}}
 
 CanAdd(P) == P.ntasks < NTasks
 AddTask(P, kind) == [P EXCEPT !.tasks[P.ntasks + 1] = [kind |-> kind, ph |-> "queued", new |-> 0], !.ntasks = P.ntasks + 1]
@@ -108,7 +106,7 @@ BorrowStart(r) ==
     /\ IF pool.shutdown
        THEN st' = [st EXCEPT ![r] = "nohost"] /\ UNCHANGED on
        ELSE /\ st' = [st EXCEPT ![r] = "picked"]
-            /\ on' = [on EXCEPT ![r] = IF pool.conns = <<>> THEN 0 ELSE LeastBusy(pool.conns, inflight)]
+            /\ \E c \in (IF pool.conns = <<>> THEN {0} ELSE LeastBusySet(pool.conns, inflight)) : on' = [on EXCEPT ![r] = c]
     /\ act' = A("BorrowStart", r, 0, FALSE)
     /\ UNCHANGED <<cvars, pool, opened, fails, cfails, viaEmpty>>
 
@@ -120,12 +118,14 @@ BorrowTake(r) ==
            n == IF c = 0 /\ Core - (Len(pool.conns) + pool.sched) > 0 THEN Core - (Len(pool.conns) + pool.sched) ELSE 0
            P1 == IF n = 0 THEN pool ELSE [AddTask(pool, "create") EXCEPT !.sched = pool.sched + 1]      \* Core - len <= 1 in the instances checked
            direct == c # 0 /\ inflight[c] < MaxId
-           again == IF P1.shutdown \/ P1.conns = <<>> THEN 0
-                    ELSE IF inflight[LeastBusy(P1.conns, inflight)] < MaxId THEN LeastBusy(P1.conns, inflight) ELSE 0
-           t == IF direct THEN c ELSE again IN
+           again == IF P1.shutdown \/ P1.conns = <<>> THEN {0}
+                    ELSE LET lb == LeastBusySet(P1.conns, inflight) IN
+                         IF \E x \in lb : inflight[x] < MaxId THEN lb ELSE {0}       \* equally busy: all or none have room
+           ts == IF direct THEN {c} ELSE again IN
        /\ n <= 1 /\ (n = 1 => CanAdd(pool))
        /\ pool' = P1
-       /\ IF t # 0
+       /\ \E t \in ts :
+          IF t # 0
           THEN /\ inflight' = [inflight EXCEPT ![t] = @ + 1]
                /\ on' = [on EXCEPT ![r] = t] /\ st' = [st EXCEPT ![r] = "borrowed"]
           ELSE /\ on' = [on EXCEPT ![r] = 0] /\ st' = [st EXCEPT ![r] = "nohost"]
